@@ -62,12 +62,19 @@ def requires(cond):
         ST.pre_ok = False
 
 
+class HarnessLimit(Exception):
+    """the native harness cannot evaluate a clause on this input (e.g. too many generator outcomes to
+    enumerate): the clause is skipped on the input, never reported as failed"""
+
+
 def _run_clause(name, thunk):
     if ST.only is not None and name != ST.only:
         return
     try:
         ok = bool(thunk())
         ST.clauses.append((name, ok, None))
+    except HarnessLimit:
+        return
     except Exception as e:  # a clause that raises is a failed clause
         ST.clauses.append((name, False, f'{type(e).__name__}: {e}'))
 
